@@ -41,8 +41,8 @@ using Key = KeyT;
 #else
 using Key = long;
 #endif
-static int g_hashmode = 0;  // 0 identity, 1 constant, 2 mod 2
-struct XHash { std::size_t operator()(const Key& kk) const { long k = (long)kk; return g_hashmode == 1 ? 7 : (g_hashmode == 2 ? (std::size_t)(k % 2) : (std::size_t)k); } };
+static int g_hashmode = 0;  // 0 identity, 1 constant, 2 mod 2, 3 reversed (1000 - k: hash order opposite to key order)
+struct XHash { std::size_t operator()(const Key& kk) const { long k = (long)kk; return g_hashmode == 1 ? 7 : (g_hashmode == 2 ? (std::size_t)(k % 2) : (g_hashmode == 3 ? (std::size_t)(1000 - k) : (std::size_t)k)); } };
 
 struct SetSpec {
   using State = std::set<long>;
@@ -71,7 +71,7 @@ struct HmAdapter : Adapter {
   It* its[17] = {nullptr};
   static long keyof(It& it) { if constexpr (IsMap) return (*it).first; else return *it; }
   void setup(const Case& cs) override {
-    std::string h = cs.gets("hash", "id"); g_hashmode = h == "const" ? 1 : (h == "mod2" ? 2 : 0);
+    std::string h = cs.gets("hash", "id"); g_hashmode = h == "const" ? 1 : (h == "mod2" ? 2 : (h == "rev" ? 3 : 0));
     c = new C();
   }
   void thread_begin(int tid) override { xv::Quiet q; its[tid] = new It(c->end()); }
